@@ -15,6 +15,13 @@ Definition html_word : str := s2l "html".
 Definition nonempty (o : option str) : option str :=
   match o with Some (_ :: _) => o | _ => None end.
 
+(* x.split(';')[0]: other media type parameters may follow the charset *)
+Fixpoint until_semicolon (s : str) : str :=
+  match s with
+  | [] => []
+  | c :: r => if N.eqb c 59 then [] else c :: until_semicolon r
+  end.
+
 Inductive decoded := Text (t : str) | Undecodable (encoding : str).
 
 Section Decode.
@@ -28,7 +35,7 @@ Section Decode.
   Definition raw_label (content_type_lower : str) (content : str) : option str :=
     let from_header :=
       if contains charset_eq content_type_lower
-      then nonempty (Some (after_last_aux charset_eq content_type_lower []))
+      then nonempty (Some (until_semicolon (after_last_aux charset_eq content_type_lower [])))
       else None in
     let l1 := match from_header with
               | Some l => Some l
